@@ -53,8 +53,9 @@ func (x *X) File(rel string) *ast.File {
 		x.fail("cannot parse %s: %v", rel, err)
 		f = &ast.File{}
 	}
+	fileFset[f] = x.fset
 	if !noCanon {
-		canonFile(rel, f) // locals back to their pinned names (canon.go)
+		canonFile(rel, f, x.fset) // locals back to their pinned names (canon.go)
 	}
 	x.files[rel] = f
 	return f
